@@ -61,4 +61,3 @@ func (s *Epoch) GetNodeByCid(ctx context.Context, wantedCid cid.Cid) ([]byte, er
 
 // model of (*Epoch).prefetchSubgraph: cache warm-up only, no effect on the answer.
 func (s *Epoch) prefetchSubgraph(ctx context.Context, wantedCid cid.Cid) error { return nil }
-
